@@ -661,6 +661,13 @@ func (w *World) gotError(err error) {
 // for the burst is not compared (the kernel dropped an unknown part).
 func (w *World) Overflow(dir string, n int) {
 	w.Plug()
+	if c := cap(w.W.Events); c > 64 {
+		// the plug cannot park the reader of a large buffer: it keeps taking
+		// notifications out of the kernel until the channel is full, and may
+		// hold one more read buffer (64 KiB / 16 bytes) in its hands. The burst
+		// must overflow the kernel queue on top of that.
+		n += c + 4096 + 64
+	}
 	w.overflowing = true
 	w.ovfErrs = 0
 	a, b := filepath.Join(dir, "ovf-a"), filepath.Join(dir, "ovf-b")
